@@ -89,7 +89,12 @@ async fn err_scripted(
         None => Ok(HttpResponseOk(Refused { refused: true })),
         Some(mut e) => {
             for (i, (n, v)) in s.headers.iter().enumerate() {
-                if i % 2 == 0 {
+                if i % 3 == 2 {
+                    e.headers_mut().append(
+                        http::HeaderName::from_bytes(n.as_bytes()).unwrap(),
+                        http::HeaderValue::from_str(v).unwrap(),
+                    );
+                } else if i % 2 == 0 {
                     let _ = e.add_header(n.as_str(), v.as_str());
                 } else {
                     e = match e.with_header(n.as_str(), v.as_str()) {
